@@ -276,6 +276,7 @@ func runC03(c *Ctx) {
 		}
 	}
 	c03Artifact(c, g)
+	randomCombinations(c, g, 400, false)
 }
 
 // artifact entry point: the ArtifactResponse carries its own Issuer and Status
